@@ -39,7 +39,7 @@ ASSUMPTIONS = ["bounds: mostly 3..6 series of length 2..8 (one history in 12: 7.
                "psi is kept <= window and <= the shortest series (outside that the C kernels write beyond their buffer, which is C08's subject)",
                "KMeans is seeded through the public generators; parallel=False everywhere (parallel routes are C07 / C16)"]
 
-REPS = ["list", "tuple", "array", "nd", "strided", "neg", "col", "row"]
+REPS = ["list", "tuple", "array", "nd", "strided", "neg", "col", "row", "ovl"]
 NREPS = ["nd", "lists", "fortran", "strided"]
 PAIR_FNS = ["distance", "distance", "distance_fast", "lb_keogh", "ub_euclidean", "ed_distance", "ed_distance_fast", "warping_paths", "warping_paths_fast",
             "warping_path", "warping_path_fast", "warp", "best_path"]
@@ -59,6 +59,15 @@ def gen_history(st):
     for i in range(m):
         L = L0 if equal else ((130 + rng.below(60)) if huge else (9 + rng.below(16) if big else 2 + rng.below(7)))
         series.append([float(rng.below(5)) if rng.below(3) else round(rng.uniform(-2, 4), 2) for _ in range(L)])
+    overlap = None
+    if not huge and rng.below(3) == 0 and m >= 2 and not equal:
+        # two series that are overlapping windows of ONE underlying array (rep "ovl" hands out views that share memory)
+        i0, i1 = rng.sample(list(range(m)), 2)
+        if len(series[i0]) >= 3:
+            k_ = 1 + rng.below(len(series[i0]) - 2)
+            extra = [float(rng.below(5)) for _ in range(rng.below(3))]
+            series[i1] = list(series[i0][k_:]) + extra
+            overlap = [i0, i1, k_]
     nser = [[[float(rng.below(4)), float(rng.below(3))] for _ in range(2 + rng.below(5))] for _ in range(2 + rng.below(2))]
     minlen = min(len(s) for s in series)
     dicts = []
@@ -86,7 +95,7 @@ def gen_history(st):
         if kind == "matrix" and len({len(series[i]) for i in idxs}) != 1:
             kind = "list_views"
         conts.append({"kind": kind, "idxs": idxs, "reps": [rng.choice(REPS[3:]) for _ in idxs]})
-    setup = {"series": series, "nseries": nser, "dicts": dicts, "conts": conts}
+    setup = {"series": series, "nseries": nser, "dicts": dicts, "conts": conts, "overlap": overlap}
 
     def ref():
         return [rng.below(m), rng.choice(REPS)]
@@ -104,7 +113,9 @@ def gen_history(st):
         for _ in range(3 + rng.below(8)):
             k = rng.below(40)
             if k < 16:
-                programs[s].append({"op": "pair", "fn": rng.choice(PAIR_FNS), "a": ref(), "b": ref(), "opts": dref(), "use_c": bool(rng.below(2))})
+                ra = ref()
+                rb_ = list(ra) if rng.below(10) == 0 else ref()       # sometimes the SAME object as both arguments
+                programs[s].append({"op": "pair", "fn": rng.choice(PAIR_FNS), "a": ra, "b": rb_, "opts": dref(), "use_c": bool(rng.below(2))})
             elif k < 20:
                 programs[s].append({"op": "npair", "fn": rng.choice(NPAIR_FNS), "a": nref(), "b": nref(), "opts": dref(), "use_c": bool(rng.below(2))})
             elif k < 25:
@@ -185,6 +196,14 @@ class Pool:
         self.canonical = canonical
         self.items = {}
         self.bases = []     # (name, object) whose content must never change
+        self.ovl = {}
+        ov = setup.get("overlap")
+        if ov and not canonical:
+            i0, i1, k_ = ov
+            s0, s1 = setup["series"][i0], setup["series"][i1]
+            base = np.array(list(s0) + list(s1[len(s0) - k_:]), dtype=np.double)
+            self.bases.append(("overlap-base", base))
+            self.ovl = {i0: base[:len(s0)], i1: base[k_:k_ + len(s1)]}
         for i, v in enumerate(setup["series"]):
             for rep in REPS:
                 self.items[(i, rep)] = self._make(i, rep, v)
@@ -220,6 +239,10 @@ class Pool:
             base = np.array(v[::-1], dtype=np.double)
             self.bases.append(("series%d/neg-base" % i, base))
             return base[::-1]
+        elif rep == "ovl":
+            if i in self.ovl:
+                return self.ovl[i]
+            o = np.array(v, dtype=np.double)
         elif rep == "col":
             base = np.full((len(v), 3), JUNK)
             base[:, 1] = v
@@ -299,22 +322,31 @@ def _opts(pool, di, use_c=None):
     return o
 
 
+_RAW = {"last": None}
+
+
 def _norm(x):
+    """Records the raw returned object (for the result-stability / aliasing oracles) and returns its plain form."""
+    _RAW["last"] = x
+    return _norm_plain(x)
+
+
+def _norm_plain(x):
     """Plain nested structure (lists / floats / ints / strings) of a result, so that results can be compared exactly
     (history twin) or with a rounding-level tolerance (canonical twin)."""
     import numpy as np
     if isinstance(x, np.ma.MaskedArray):
-        return ["ma", _norm(np.ma.getdata(x)), _norm(np.ma.getmaskarray(x).astype(int))]
+        return ["ma", _norm_plain(np.ma.getdata(x)), _norm_plain(np.ma.getmaskarray(x).astype(int))]
     if isinstance(x, np.ndarray):
         return ["nd", list(x.shape), x.astype(float).ravel().tolist() if x.dtype != object else [repr(v) for v in x.ravel()]]
     if isinstance(x, np.generic):
-        return _norm(x.item())
+        return _norm_plain(x.item())
     if isinstance(x, array.array):
         return ["nd", [len(x)], [float(v) for v in x]]
     if isinstance(x, (list, tuple)):
-        return [_norm(v) for v in x]
+        return [_norm_plain(v) for v in x]
     if isinstance(x, dict):
-        return {str(k): _norm(v) for k, v in sorted(x.items(), key=lambda kv: repr(kv[0]))}
+        return {str(k): _norm_plain(v) for k, v in sorted(x.items(), key=lambda kv: repr(kv[0]))}
     if isinstance(x, bool) or x is None or isinstance(x, (int, str)):
         return x
     if isinstance(x, float):
@@ -429,7 +461,7 @@ def run_op(pool, op, alone):
                 r = dtw_barycenter.dba_loop(c, c=init, max_it=op["max_it"], thr=0.0001, use_c=op["use_c"])
             else:
                 r = dtw_barycenter.dba(c, init, use_c=op["use_c"])
-            return _norm(np.array(r, dtype=np.double))
+            return _norm(r if isinstance(r, np.ndarray) else np.array(r, dtype=np.double))
         if kind == "new_ss":
             from dtaidistance.subsequence.subsequencesearch import SubsequenceSearch
             d = pool.dicts[op["dict"]] if op["dict"] is not None and op["dict"] < len(pool.dicts) else None
@@ -544,6 +576,17 @@ def run_threads(setup, op, bump, obs, opi):
     return None
 
 
+def _arrays_in(x, out=None, depth=0):
+    import numpy as np
+    out = [] if out is None else out
+    if isinstance(x, np.ndarray) and x.size:
+        out.append(x)
+    elif isinstance(x, (list, tuple)) and depth < 3:
+        for v in x[:8]:
+            _arrays_in(v, out, depth + 1)
+    return out
+
+
 def _is_exc(r):
     return isinstance(r, list) and len(r) == 2 and r[0] == "exc"
 
@@ -564,6 +607,7 @@ def execute(history):
     creators = {}
     tainted = set()
     obs = []
+    kept = []
     for opi, op in enumerate(history["ops"]):
         kind = op["op"]
         if kind.startswith("new_"):
@@ -597,6 +641,25 @@ def execute(history):
                     tainted.add(op["obj"])
                 bump("op:" + kind + (":" + op["fn"] if "fn" in op else ""))
                 obs.append([opi, core.digest_value(live)])
+                # result stability / aliasing: an array the library returned must not share memory with a pooled input and
+                # must not be changed by later library calls
+                raw = _RAW["last"] if kind in ("pair", "npair", "matrix", "dba") and not _is_exc(live) else None
+                _RAW["last"] = None
+                arrs = _arrays_in(raw)
+                for a_ in arrs:
+                    for name, base in pool.bases:
+                        if isinstance(base, pool.np.ndarray) and pool.np.shares_memory(a_, base):
+                            add({"class": "result-aliases-input", "detail": "%s returned an array that shares memory with the pooled input %s" % (json.dumps(op)[:160], name)}, opi)
+                            arrs = []
+                            break
+                for (opj, a_old, dg_old) in kept:
+                    if core.digest_value(a_old) != dg_old:
+                        add({"class": "earlier-result-changed", "detail": "an array returned by op %d was changed by the later call %s" % (opj, json.dumps(op)[:160])}, opi)
+                        kept.clear()
+                        break
+                for a_ in arrs[:2]:
+                    kept.append((opi, a_, core.digest_value(a_)))
+                del kept[:-6]
                 # 1. inputs untouched
                 ch = pool.changed()
                 if ch is not None:
@@ -670,6 +733,8 @@ def shrink(h):
     maxpsi = max([d.get("psi", 0) for d in setup["dicts"]] + [0])
     for i, s in enumerate(setup["series"]):
         # keep every series longer than the largest psi (psi == length is a degenerate combination)
+        if setup.get("overlap") and i in setup["overlap"][:2]:
+            continue
         if len(s) > max(2, maxpsi + 1) and not any(c["kind"] == "matrix" and i in c["idxs"] for c in setup["conts"]):
             s2 = copy.deepcopy(setup); s2["series"][i] = s[:-1]
             out.append({"setup": s2, "ops": copy.deepcopy(h["ops"])})
